@@ -29,7 +29,12 @@ def tensor_desc(t):
         if int(t.dtype) == 8:
             data = tuple(bytes(x) if not isinstance(x, str) else x.encode() for x in t.numpy().reshape(-1).tolist())
             return ("string", tuple(t.shape.numpy()), data, _none_if_empty(t.doc_string), _md(t.metadata_props))
-        return ("tensor", int(t.dtype), tuple(t.shape.numpy()), bytes(t.tobytes()), _none_if_empty(t.doc_string), _md(t.metadata_props))
+        # the logical content, element by element in row-major order, taken from numpy() - NOT from tobytes(), which is
+        # the very routine the serializer uses (comparing it with itself would hide a wrong encoding)
+        import numpy as np
+
+        content = np.ascontiguousarray(t.numpy()).tobytes()
+        return ("tensor", int(t.dtype), tuple(t.shape.numpy()), content, _none_if_empty(t.doc_string), _md(t.metadata_props))
     except Exception as e:
         return ("tensor-error", type(e).__name__)
 
